@@ -1,6 +1,7 @@
 SPECIFICATION Spec
 CONSTANTS MaxLen = 6
 EmitMod = 4
+Prefix <- PrefixNone
 Emit = TRUE
 Vocab <- VocabThorough
 INVARIANTS TypeOK DesignRefinesInfoset EmitCase
